@@ -33,7 +33,7 @@ def run(ctx):
                 nc_edges += v
     for f in t["fails"]:
         rec = f["rec"]
-        clauses = [c for c in f["violated"] if c in ("RefsStayResolved", "FilterExact")]
+        clauses = [c for c in f["violated"] if c in ("RefsStayResolved", "FilterExact", "SelfRefsStay")]
         for c in clauses:
             sig = "C05/%s/%s/%s/sel=%s" % (rec["act"]["a"], c, "+".join(f["dangling"]) or "-", rec.get("sel", "?"))
             ctx.fail(sig, "after %s the real schemas violate %s (dangling: %s)" % (json.dumps(rec["act"]), c, f["dangling"]),
